@@ -1556,8 +1556,14 @@ class Sim(object):
                     # the same value was asked something before: ask again
                     self.reask(step_no, 2, about=step["a"][0])
                 if not name.startswith("rec.iter_"):
+                    # for a share of the answers that are values, also what
+                    # the answer reports about itself in public (its epoch
+                    # seconds, week date, ...), not only how it prints
+                    view = public_view(res) if (
+                        step_no % 3 == 0 and isinstance(res, classes)) else (
+                            None)
                     self.asked.append([step_no, name, list(step["a"]),
-                                       list(step["s"]), out])
+                                       list(step["s"]), out, view])
             if isinstance(res, classes):
                 self.admit(step["id"], res, step["a"])
             elif isinstance(res, (list, tuple)):
@@ -1633,13 +1639,17 @@ class Sim(object):
             return
         rng = random.Random(self.trace["sample_salt"] * 31 + step_no)
         picks = cands if len(cands) <= limit else rng.sample(cands, limit)
-        for q_step, name, operand_names, scalars, answer in picks:
+        for q_step, name, operand_names, scalars, answer, view in picks:
             if any(o not in self.pool for o in operand_names):
                 continue
             ops = [self.pool[o] for o in operand_names]
+            view_now = None
             try:
                 with kernel.guarded():
-                    out = canon_plain(self.apply(name, ops, scalars))
+                    res = self.apply(name, ops, scalars)
+                    out = canon_plain(res)
+                if view is not None:
+                    view_now = public_view(res)
             except kernel.Hang:
                 continue
             except kernel.HarnessError:
@@ -1647,6 +1657,14 @@ class Sim(object):
             except Exception as exc:
                 out = "EXC:%s:%s" % (type(exc).__name__, str(exc)[:120])
             self.count("reasked")
+            if out == answer and view is not None and view_now != view:
+                self.violate("answer_changed", name, step_no,
+                             asked_at_step=q_step, operands=operand_names,
+                             scalars=scalars, before=[a for a, b in zip(
+                                 view, view_now or []) if a != b][:4],
+                             after=[b for a, b in zip(
+                                 view, view_now or []) if a != b][:4],
+                             answer_prints_the_same=True)
             if out != answer:
                 self.violate("answer_changed", name, step_no,
                              asked_at_step=q_step, operands=operand_names,
